@@ -23,26 +23,26 @@ Theorem c15_fresh_table_invariant : forall cf, finv cf (new_table cf).
 Proof. exact new_table_finv. Qed.
 Print Assumptions c15_fresh_table_invariant.
 
-(* Chains whose content did not change are not rewritten: an owned chain whose cached hashes equal the
+(* Chains whose content did not change are not rewritten (legacy backend): an owned chain whose cached hashes equal the
    wanted hashes, and a kernel chain whose cached hashes equal the expected arrangement of hook rules,
    do not occur in the restore input at all (even if marked dirty). *)
 Theorem c15_no_rewrite_if_unchanged : forall cf t cs c ch,
-  apply_cmds cf t = Some cs ->
+  cf_nft cf = false -> apply_cmds cf t = Some cs ->
   owned cf c = true ->
   (forall c', In c' (t_dirtyIA t) -> owned cf c' = false) ->
   desired t c = Some ch ->
   get c (t_dp t) = Some (hashes_of (ch_rules ch)) ->
   ~ In c (map fst cs).
-Proof. exact no_rewrite_owned. Qed.
+Proof. exact no_rewrite_owned'. Qed.
 Print Assumptions c15_no_rewrite_if_unchanged.
 
 Theorem c15_no_rewrite_if_unchanged_hooks : forall cf t cs c,
-  apply_cmds cf t = Some cs ->
+  cf_nft cf = false -> apply_cmds cf t = Some cs ->
   owned cf c = false ->
   (forall c', In c' (t_dirty t) -> owned cf c' = true) ->
   ia_in_sync cf t c = true ->
   ~ In c (map fst cs).
-Proof. exact no_rewrite_hooks. Qed.
+Proof. exact no_rewrite_hooks'. Qed.
 Print Assumptions c15_no_rewrite_if_unchanged_hooks.
 
 (* Convergence of one restore transaction (PARTIAL as a statement about Apply: see below).  For ANY kernel
@@ -55,13 +55,16 @@ Print Assumptions c15_no_rewrite_if_unchanged_hooks.
    configured position (insert mode: hooks ++ foreign ++ appends; append mode: foreign ++ hooks ++
    appends) and every stale / old-hash / old-insert Felix rule removed.  Holds for both delete-by-value
    semantics (first match = iptables, all matches = MockDataplane).
+   Stated for the legacy backend (cf_nft = false); the nft-mode restore input is modelled and covered by
+   c15_foreign_untouched and the correspondence run only.
    Missing for the full c15_converges over Apply(): the proof that loadDataplaneState establishes the
    "not marked dirty => already at target" part of [uhyp] from the Table invariant (cache of a non-dirty
    chain = hashes of its wanted rules), and that invariant's preservation by the API calls. *)
 Theorem c15_converges_partial : forall cf dall t k cs k',
+  cf_nft cf = false ->
   uhyp cf t k -> apply_cmds cf t = Some cs -> exec dall k cs = Some k' ->
   forall c, get c k' = tgt cf t k c.
-Proof. exact update_converges. Qed.
+Proof. exact update_converges'. Qed.
 Print Assumptions c15_converges_partial.
 
 (* The positional delta at the heart of it: from ANY chain content L (stale rules, foreign lines, current
@@ -88,7 +91,7 @@ Print Assumptions c15_any_history_partial.
    chain cali-old, and a wanted chain cali-a present with a wrong first rule and a surplus rule; one Apply
    with a failing first restore converges and leaves the foreign rule alone. *)
 Example c15_example :
-  let cf := {| cf_prefixes := ["cali-"%string]; cf_append := false; cf_kchains := ["FORWARD"%string]; cf_fix := false |} in
+  let cf := {| cf_prefixes := ["cali-"%string]; cf_append := false; cf_kchains := ["FORWARD"%string]; cf_fix := false; cf_nft := false |} in
   let k0 : kernel := [("FORWARD"%string, [L 0 1; L 1 2; L 9 3]); ("cali-old"%string, [L 9 4]);
                       ("cali-a"%string, [L 9 5; L 11 11; L 0 6])] in
   let ops := [OpUpdate "cali-a"%string (CH [R 10 10 None; R 11 11 None] false);
